@@ -14,6 +14,12 @@
 //! *must* be refused (cut short, type the reader does not take, length that
 //! no PDU of that type can have). Completion is decided by a poll budget and
 //! by the reader's count of reads after end-of-stream, never by a clock.
+//!
+//! Literal cases (`vcheck C07 --case f`): a libFuzzer input of target
+//! `c07_pdu`, `{"fuzz_target": "pdu", "hex": bytes}` (octet 0 selects the read
+//! entry point, octet 1 the delivery pattern, the rest is the stream; judged by
+//! the same `read_and_judge` as the generated faults), or
+//! `{"write_corpus": dir}` which writes the seed corpus of that target.
 
 use crate::c07_gen::{gen_pdu, length_set, random_script, Size, KINDS};
 use crate::c07_io::{be32, drive, hex_capped, parse_header, Chunking, Pdu, TruncatingReader};
@@ -1101,6 +1107,14 @@ fn corruptions(ctx: &mut Ctx, mon: &mut Mon, m: &Pdu, w: &[u8], cap: u32, reduce
 pub fn run(ctx: &mut Ctx) {
     let mut mon = Mon { evals: 0, seen: HashSet::new(), ok_reads: 0, err_reads: 0, eof_reads_max: 0, pendings: 0, polls: 0, wf_refused: 0, wf_accepted: 0, eod_gt2_refused: 0, eod_gt2_accepted: 0, want_trunc_sample: true, want_corrupt_sample: true };
     let miri = ctx.stage == Stage::Miri;
+    // literal cases: libFuzzer artifact / seed corpus of the fuzz stage
+    if let Some(case) = ctx.case.clone() {
+        run_case(ctx, &mut mon, &case);
+        ctx.evals(mon.evals);
+        ctx.obs("reads_ok", mon.ok_reads);
+        ctx.obs("reads_err", mon.err_reads);
+        return;
+    }
     let mut rng = ctx.rng("values");
     let mut rng_io = ctx.rng("delivery");
 
@@ -1258,4 +1272,180 @@ fn huge_lengths(ctx: &mut Ctx, mon: &mut Mon) {
         }
     }
     ctx.obs("huge_length_headers", 32);
+}
+
+//------------ libFuzzer target c07_pdu / literal cases -----------------------
+
+/// Announced lengths above this are not handed to the library by the fuzz
+/// target (the library allocates the announced size for router keys and ASPA;
+/// the native stage tries the huge announcements once per check instead).
+pub const FUZZ_LENGTH_CAP: u32 = 1 << 20;
+
+/// PDUs read from one fuzz input at most (the same entry point is used again
+/// while it returns PDUs, like a client reading a payload sequence).
+const FUZZ_MAX_PDUS: usize = 48;
+
+/// Every read entry point the monitor drives, in a fixed order: the first
+/// octet of a fuzz input indexes this table (modulo its length).
+pub fn fuzz_entries() -> Vec<Entry> {
+    const ALL: [Kind; 13] = [
+        Kind::SerialNotify, Kind::SerialQuery, Kind::ResetQuery, Kind::CacheResponse, Kind::V4, Kind::V6, Kind::EodV0,
+        Kind::EodV1, Kind::Eod, Kind::CacheReset, Kind::RouterKey, Kind::Error, Kind::Aspa,
+    ];
+    let mut v = vec![Entry::PayloadRead, Entry::Dispatch, Entry::HeaderOnly, Entry::SqPayload];
+    v.extend(ALL.iter().map(|k| Entry::HeaderPayload(*k)));
+    v.extend(ALL.iter().filter(|k| k.has_read()).map(|k| Entry::Typed(*k)));
+    v.extend(ALL.iter().filter(|k| k.has_try_read()).map(|k| Entry::Try(*k)));
+    v
+}
+
+/// Delivery pattern selected by the second octet of a fuzz input.
+fn fuzz_chunking(sel: u8) -> Chunking {
+    match sel % 4 {
+        0 | 1 => Chunking::AllAtOnce,
+        2 => Chunking::ByteWise,
+        // a script is a pure function of the octet (at most 9 polls per octet delivered)
+        _ => random_script(&mut Rng::new(0xC07 + (sel >> 2) as u64)),
+    }
+}
+
+/// Splits a fuzz input into (entry, delivery, stream).
+fn fuzz_split(data: &[u8]) -> Option<(Entry, Chunking, &[u8])> {
+    if data.len() < 2 {
+        return None;
+    }
+    let entries = fuzz_entries();
+    Some((entries[data[0] as usize % entries.len()], fuzz_chunking(data[1]), &data[2..]))
+}
+
+/// Judges one fuzz input: the stream is everything after the two selector
+/// octets and ends there; the selected entry point reads PDU after PDU until
+/// it refuses, the stream is used up, or a header announces more than
+/// `FUZZ_LENGTH_CAP` octets. Every read goes through `read_and_judge`, i.e. the
+/// damage oracle of the native stage (no panic, completion within the poll
+/// budget, at most two reads after the end of the stream, bounded consumption,
+/// never `Ok` for a stream that ends inside the PDU / a type the reader does
+/// not take / a length no PDU of the type can have; an accepted PDU ends where
+/// its length field says and writes back to the octets read).
+fn judge_fuzz_input(ctx: &mut Ctx, mon: &mut Mon, data: &[u8]) {
+    let Some((entry, chunking, stream)) = fuzz_split(data) else { return };
+    let describe = || json!({"kind": "libFuzzer input (c07_pdu)", "input_len": stream.len() + 2});
+    let case = Case { describe: &describe, stream, limit: stream.len(), chunking: &chunking, pristine: false };
+    let mut rd = TruncatingReader::new(stream, stream.len(), chunking.clone());
+    for _ in 0..FUZZ_MAX_PDUS {
+        let at = rd.consumed();
+        if let Some(h) = parse_header(&stream[at.min(stream.len())..]) {
+            if h.length > FUZZ_LENGTH_CAP {
+                break;
+            }
+        }
+        let back = read_and_judge(ctx, mon, &case, &mut rd, entry, None);
+        if back.is_none() || rd.consumed() == at || rd.consumed() >= stream.len() {
+            break;
+        }
+    }
+}
+
+fn fresh_mon() -> Mon {
+    Mon { evals: 0, seen: HashSet::new(), ok_reads: 0, err_reads: 0, eof_reads_max: 0, pendings: 0, polls: 0, wf_refused: 0, wf_accepted: 0, eod_gt2_refused: 0, eod_gt2_accepted: 0, want_trunc_sample: false, want_corrupt_sample: false }
+}
+
+/// One libFuzzer execution of target `c07_pdu`. A library panic propagates
+/// (libFuzzer aborts on it); any other finding of the oracle panics with a
+/// message that starts with the violation signature, so the crash artifact
+/// replays natively through `vcheck C07 --case` under the same name.
+pub fn fuzz_one(group: &str, data: &[u8]) {
+    let _ = group; // one group: "pdu"
+    let mut ctx = Ctx::new("C07", Tier::Thorough, Stage::Native, 0, 0, 1);
+    let mut mon = fresh_mon();
+    judge_fuzz_input(&mut ctx, &mut mon, data);
+    if ctx.violation_count() > 0 {
+        let out = ctx.finish();
+        let v = &out["violations"][0];
+        panic!("{} -- {}", v["sig"].as_str().unwrap_or("C07:fuzz:unnamed"), v["desc"].as_str().unwrap_or(""));
+    }
+}
+
+/// Seed corpus of target `c07_pdu`: PDUs of every type from the module's
+/// generator, as laid out by the independent encoder, under every entry point
+/// that takes them and under the three delivery patterns; two- and three-PDU
+/// streams for the sequence readers; a few truncated and length-damaged ones.
+fn write_corpus(ctx: &mut Ctx, dir: &str) {
+    let gdir = std::path::PathBuf::from(dir).join("c07_pdu");
+    let _ = std::fs::create_dir_all(&gdir);
+    let entries = fuzz_entries();
+    let index_of = |e: Entry| entries.iter().position(|x| *x == e).unwrap_or(0) as u8;
+    let mut rng = ctx.rng("corpus");
+    let mut written = 0u64;
+    let mut put = |sel: u8, delivery: u8, stream: &[u8]| {
+        if stream.len() + 2 > 4096 {
+            return;
+        }
+        let mut bytes = vec![sel, delivery];
+        bytes.extend_from_slice(stream);
+        if std::fs::write(gdir.join(format!("{:016x}", crate::core::fnv64(&bytes))), &bytes).is_ok() {
+            written += 1;
+        }
+    };
+    let mut recent: Vec<Vec<u8>> = Vec::new();
+    for i in 0..(8 * KINDS) {
+        let m = gen_pdu(&mut rng, i % KINDS, Size::Normal);
+        let w = m.encode();
+        if w.len() > 1500 {
+            continue;
+        }
+        for (j, entry) in entries_for(&m).into_iter().enumerate() {
+            // delivery octet: 0 all at once, 2 byte-wise, 3+4k scripts
+            let delivery = match (i as usize + j) % 4 {
+                0 | 1 => 0u8,
+                2 => 2,
+                _ => 3 + 4 * (rng.below(64) as u8),
+            };
+            put(index_of(entry), delivery, &w);
+        }
+        match i % 4 {
+            0 if w.len() > 9 => {
+                let cut = rng.range(1, w.len() as u64 - 1) as usize;
+                put(index_of(typed_entry(&m)), 0, &w[..cut]);
+            }
+            1 => {
+                let mut d = w.clone();
+                let l = *rng.pick(&length_set(w.len() as u32, 0x1_0004));
+                d[4..8].copy_from_slice(&l.to_be_bytes());
+                put(index_of(Entry::Dispatch), 0, &d);
+            }
+            _ => {}
+        }
+        if is_payload_seq_member(&m) && w.len() <= 300 {
+            recent.push(w);
+        }
+        if recent.len() >= 3 {
+            let stream: Vec<u8> = recent.concat();
+            put(index_of(Entry::PayloadRead), 0, &stream);
+            put(index_of(Entry::Dispatch), 3 + 4 * (rng.below(64) as u8), &stream);
+            put(index_of(Entry::HeaderOnly), 0, &stream);
+            recent.clear();
+        }
+    }
+    ctx.obs("fuzz_corpus_files_written", written);
+    ctx.evals(written);
+    ctx.sig("corpus-written");
+    ctx.sig("corpus");
+}
+
+fn run_case(ctx: &mut Ctx, mon: &mut Mon, case: &Value) {
+    if let Some(dir) = case["write_corpus"].as_str() {
+        write_corpus(ctx, dir);
+        return;
+    }
+    if case["fuzz_target"].as_str().is_some() {
+        let raw = crate::core::unhex(case["hex"].as_str().unwrap_or(""));
+        judge_fuzz_input(ctx, mon, &raw);
+        ctx.sig("replay");
+        if let Some((entry, chunking, _)) = fuzz_split(&raw) {
+            ctx.sig(&format!("replay|{}|{}", entry.label(), chunking.label()));
+        }
+        return;
+    }
+    ctx.notes.push("C07: case file of unknown shape".into());
 }
